@@ -144,7 +144,7 @@ pub fn run(r: &mut Runner) -> &'static str {
     r.assumptions.push("conditioned on the parser accepting the candidate (C02 owns acceptance)".into());
     r.assumptions.push("a TypeLengthValues iterator taken from the header denotes the header's whole TLV section also after it has been walked (validate-then-forward); same reading as C10 / C20".into());
     let n = r.n(120_000, 3_000_000);
-    r.random("c13.random", n, 200, &crate::props::c14::gen_case, &judge);
+    r.random("c13.random", n, 200, &crate::props::c14::gen_case, &|x: &Vec<u8>, st: &mut Stats| crate::engine::in_arena(x, |v| judge(v, st)));
     let (seed, quick) = (r.seed, r.quick());
     let work = |shard: usize, n: usize, st: &mut Stats, _stop: &std::sync::atomic::AtomicBool| -> Option<(Vec<u8>, Fail)> {
         let mut out = None;
